@@ -297,7 +297,19 @@ fn emit_move(mode: &str, inst: &Inst, out: &Outcome, ret2: Result<usize, String>
     let output = format!("1 {} {} 1 1 1 1 1 1 ok", out.ret, r2);
     let changed = snap(&out.man) != before;
     stat(&format!("{}.{}.{}", inst.origin, mode, if changed { "changed" } else { "unchanged" }), 1);
-    emit(inst.man.get_n() > 0, &input, &output, Some(orc));
+    emit(inst.man.get_n() > 0, &input, &output, Some(orc.clone()));
+    // the same run against the exact model (`clusterUpdate`): output configuration, returned count and
+    // draw verdict must be identical (which draw controls which cluster, for every script)
+    let input = format!(
+        "exact {} {} {} {}",
+        mode,
+        list(&inst.frozen),
+        show_state_slots(&inst.state, &inst.man),
+        list(&out.draws)
+    );
+    let output = format!("{} {} ok 1", show_state_slots(&out.state, &out.man), out.ret);
+    stat(&format!("exact.{}.{}", mode, if out.ret >= 2 { "2+clusters" } else { "0-1clusters" }), 1);
+    emit(out.ret >= 2 && changed, &input, &output, Some(orc));
 }
 
 fn emit_panic(mode: &str, inst: &Inst, script: &[u64], msg: &str) {
